@@ -66,10 +66,17 @@ def run(tier, seed):
     pan, cut, ret = pan[0], cut[0], ret[0]
     ent = cut['obs']['cut:entry']
     objs = {k: v for k, v in ent.items()}
-    mobj = [k for k, v in objs.items() if len(cells(v)) == 4]
+    hvset = {n['id'] for n in r.nodes if n['op'] == 'var' and n['n'].startswith('hv')}
+    # 4-limb objects in the (over-approximated) write set: the candidate is the one the body really rewrites; the receiver, written once
+    # after the loop, may be listed too
+    mobj = [k for k, v in objs.items() if len(cells(v)) == 4 and not set(cells(cut['obs']['cut:next'][k])) <= hvset]
+    other4 = [k for k, v in objs.items() if len(cells(v)) == 4 and k not in mobj]
     bobj = [k for k, v in objs.items() if len(cells(v)) == 32]
-    ck.ground('C18.writeset', 'the loop writes exactly the 32-byte block buffer and the 4-limb candidate', len(mobj) == 1 and len(bobj) == 1 and len(objs) == 2,
-              str({k: v['label'] for k, v in objs.items()}))
+    ck.ground('C18.writeset', 'the loop writes exactly the 32-byte block buffer and the 4-limb candidate (the receiver, written after the loop, may be listed)',
+              len(mobj) == 1 and len(bobj) == 1 and len(objs) == 2 + len(other4) and len(other4) <= 1, str({k: v['label'] for k, v in objs.items()}))
+    if len(mobj) != 1 or len(bobj) != 1:
+        battery(ck, 'shape', 'the loop does not rewrite one candidate from one block buffer')
+        return ck.finish()
     mk, bk = mobj[0], bobj[0]
     ck.ground('C18.entry', 'on entry the candidate is 0 (so the loop body runs at least once)',
               all(r.nodes[c]['op'] == 'const' and r.nodes[c]['v'] == '0' for c in cells(ent[mk])))
@@ -79,6 +86,13 @@ def run(tier, seed):
               not (readvars & set(r.cone(cut['pc'] + ret['pc']))))
     hv_m = cells(cut['obs']['cut:havoc'][mk])
     nx_m = cells(cut['obs']['cut:next'][mk])
+    # pre-tested loop (for m == 0 { draw }): the test is on the header state and the header state is returned;
+    # post-tested loop (for { draw; if m != 0 { break } }): the test is on the new candidate and the new candidate is returned
+    post_tested = list(ret['obs']['S']['f']) != list(hv_m)
+    ck.extra['loop_form'] = 'post-tested (draw, then test the new candidate)' if post_tested else 'pre-tested (test the header state, then draw)'
+    if post_tested:
+        hv_ids0 = {n['id'] for n in r.nodes if n['op'] == 'var' and n['n'].startswith('hv')}
+        ck.ground('C18.entry-irrelevant', 'post-tested loop: what is returned and tested does not depend on the state at the loop header', not (hv_ids0 & set(r.cone(list(ret['obs']['S']['f']) + ret['pc'] + cut['pc']))))
     nx_b = cells(cut['obs']['cut:next'][bk])
     hv_ids = {n['id'] for n in r.nodes if n['op'] == 'var' and n['n'].startswith('hv')}
     ck.ground('C18.independent', 'the new candidate and buffer depend only on the freshly read block, not on the previous state',
@@ -96,15 +110,27 @@ def run(tier, seed):
     nn = bvconst256(N)
     pre = '\n'.join([low.all(), mu.axioms_for(r, roots, []), '(define-fun blk () (_ BitVec 256) %s)' % Bv,
                      '(declare-const xx (_ BitVec 256))', mu.inst_to('xx')])
-    goals = [
-        ('C18.looptest', 'loop repeats iff candidate = 0', '(assert (not (= (and %s) (= %s (_ bv0 256)))))' % (' '.join('n%d' % c for c in cut['pc']), Mx)),
-        ('C18.exittest', 'loop exits iff candidate != 0', '(assert (not (= (and %s) (not (= %s (_ bv0 256))))))' % (' '.join('n%d' % c for c in ret['pc']), Mx)),
+    Sx = concat_limbs(['n%d' % x for x in ret['obs']['S']['f']])
+    Nx = concat_limbs(['n%d' % x for x in nx_m])
+    if post_tested:
+        stos_r = [n for n in r.nodes if n['op'] == 'app' and n['n'] == 'sto' and n['id'] in set(r.cone(list(ret['obs']['S']['f'])))]
+        ck.ground('C18.to-ret', 'returned candidate is one ToMontgomery application', len(stos_r) == 1)
+        arg_r = 'n%d' % stos_r[0]['a'][0] if stos_r else arg
+        test_goals = [
+            ('C18.looptest', 'the loop repeats only if the new candidate = 0', asserts(cut['pc']) + '\n(assert (not (= %s (_ bv0 256))))' % Nx),
+            ('C18.exittest', 'the loop exits only if the new candidate != 0', asserts(ret['pc']) + '\n(assert (= %s (_ bv0 256)))' % Sx),
+            ('C18.reduce-ret', 'returned candidate = ToMontgomery(block mod n)', asserts(ret['pc']) + '\n(assert (not (and (= %s (ite (bvult blk %s) blk (bvsub blk %s))) (= %s (%s %s)))))' % (arg_r, nn, nn, Sx, mu.to, arg_r))]
+    else:
+        test_goals = [
+            ('C18.looptest', 'loop repeats iff candidate = 0', '(assert (not (= (and %s) (= %s (_ bv0 256)))))' % (' '.join('n%d' % c for c in cut['pc']), Mx)),
+            ('C18.exittest', 'loop exits iff candidate != 0', '(assert (not (= (and %s) (not (= %s (_ bv0 256))))))' % (' '.join('n%d' % c for c in ret['pc']), Mx))]
+    goals = test_goals + [
         ('C18.reduce', 'new candidate = ToMontgomery(block mod n) for every 32-byte block (one conditional subtraction suffices: 2^256 < 2n)',
          asserts(cut['pc']) + '\n(assert (not (= %s (ite (bvult blk %s) blk (bvsub blk %s)))))' % (arg, nn, nn)),
         ('C18.limbs', 'candidate limbs are exactly the limbs of that ToMontgomery value',
          asserts(cut['pc']) + '\n(assert (not (= %s (%s %s))))' % (concat_limbs(['n%d' % x for x in nx_m]), mu.to, arg)),
         ('C18.result', 'returned scalar = the candidate that passed the test; receiver returned',
-         asserts(ret['pc']) + '\n(assert (not (and %s)))' % ' '.join('(= n%d n%d)' % (a, b) for a, b in zip(ret['obs']['S']['f'], hv_m))),
+         (asserts(ret['pc']) + '\n(assert (not (and %s)))' % ' '.join('(= n%d n%d)' % (a, b) for a, b in zip(ret['obs']['S']['f'], hv_m))) if not post_tested else '(assert false)'),
         ('C18.zero-iff', 'ToMontgomery(x) = 0 iff x = 0 for x < n (so blocks 0 and n, and only those, are skipped)',
          '(assert (bvult xx %s))(assert (not (= (= (%s xx) (_ bv0 256)) (= xx (_ bv0 256)))))' % (nn, mu.to)),
         ('C18.range', 'value of the result = From(To(x)) = x in [1,n-1] and canonical',
@@ -142,7 +168,8 @@ def run(tier, seed):
     r = unroll
     rets = [p for p in r.paths if p['end'] == 'return']
     pans = [p for p in r.paths if p['end'] == 'panic']
-    ck.ground('C18.unroll.shape', 'unrolling %d draws: one return and one panic outcome per draw' % draws, len(rets) == draws and len(pans) == draws + 1,
+    # (a post-tested loop reaches the header once less per draw: one more draw fits into the same unrolling bound)
+    ck.ground('C18.unroll.shape', 'unrolling at least %d draws: one return and one panic outcome per draw' % draws, len(rets) in (draws, draws + 1) and len(pans) in (len(rets), len(rets) + 1),
               '%d returns %d panics' % (len(rets), len(pans)))
     for p in rets:
         low = BVLower(r)
